@@ -68,6 +68,15 @@ func c05RepThen(s, tail string) func(int, *rng) []byte {
 	}
 }
 
+// c05PrefixRep: prefix once, then the unit repeated: every unit ends a valid match that starts
+// at the far-left prefix (each suffix candidate is a true match end sharing one start).
+func c05PrefixRep(prefix, unit string) func(int, *rng) []byte {
+	return func(n int, _ *rng) []byte {
+		b := []byte(prefix + strings.Repeat(unit, n/len(unit)+1))
+		return b[:n]
+	}
+}
+
 func c05Random(alpha string) func(int, *rng) []byte {
 	return func(n int, r *rng) []byte {
 		b := make([]byte, n)
@@ -113,6 +122,12 @@ var c05Families = []c05Family{
 	{name: "revsuffix-class-foo", pat: `[a-z]+foo`, hay: c05Rep("foo "), apis: []string{"FindIndex", "FindAllIndex"}},
 	{name: "revsuffix-nomatch-prefix", pat: `[a-z]+\d\.txt`, hay: c05Rep(".txt"), apis: []string{"Match", "FindIndex"}},
 	{name: "revsuffixset", pat: `.*\.(txt|log|md)`, hay: c05Rep(".md.log"), apis: []string{"Match", "FindIndex"}},
+	// every suffix candidate is a valid match end sharing one far-left start
+	{name: "revsuffixset-valid-ends", pat: `[A-Z][a-z.]+\.(txt|log|md)`, hay: c05PrefixRep("A", "a.txt"), apis: []string{"Match", "FindIndex", "FindSubmatchIndex"}},
+	{name: "revsuffixset-valid-ends-mixed", pat: `[A-Z][a-z.]+\.(txt|log|md)`, hay: c05PrefixRep("A", "a.txt.log.md"), apis: []string{"FindIndex"}},
+	{name: "revsuffix-valid-ends", pat: `[A-Z][a-z.]+\.txt`, hay: c05PrefixRep("A", "a.txt"), apis: []string{"Match", "FindIndex"}, small: true},
+	{name: "revinner-valid-ends", pat: `A[a-z.]*foo[a-z.]*`, hay: c05PrefixRep("A", "foo."), apis: []string{"Match", "FindIndex"}},
+	{name: "multiline-valid-ends", pat: `(?m)^[A-Z][a-z.]+\.php`, hay: c05PrefixRep("A", "a.php"), apis: []string{"Match", "FindIndex"}},
 	// reverse inner
 	{name: "revinner-a.*foo.*b", pat: `a.*foo.*b`, hay: c05Rep("foo"), apis: []string{"Match", "FindIndex"}},
 	{name: "revinner-x.*foo.*y-lines", pat: `x.*foo.*y`, hay: c05Rep("xfoo\n"), apis: []string{"Match", "FindIndex"}},
@@ -534,7 +549,9 @@ func cmdC05(args []string) int {
 				Detail: map[string]any{"family": s.fam.name, "pattern": s.fam.pat, "api": s.api, "strategy": s.strategy, "nfa_states": s.states,
 					"n": ns, "work": works, "ratios": ratios, "doublings_over_2.6": bad, "max_work_per_state_byte": int(worstK), "K": c05K,
 					"stopped_growing_after_n": s.aborted, "top_files_at_largest_n": meter.top[last.ticket], "haystack_head": string(s.fam.hay(24, r.fork(1)))},
-				Sig:      fmt.Sprintf("superlinear %s family=%s api=%s strategy=%s class=%s ratios=%s", what, s.fam.name, s.api, s.strategy, class, strings.Join(ratios, ",")),
+				// the signature names the failing series, not its measured numbers: a harmless edit of
+				// the library changes block counts in the second decimal
+				Sig:      fmt.Sprintf("superlinear(%s) family=%s api=%s strategy=%s", what, s.fam.name, s.api, s.strategy),
 				RC:       "superlinear/" + s.strategy,
 				Expected: fmt.Sprintf("work(2n) <= %.1f*work(n)+%d and work <= %d*states*(n+1)", c05MaxRatio, c05Slack, c05K),
 				Got:      fmt.Sprintf("ratios %s; max work/(states*(n+1)) = %.0f", strings.Join(ratios, ","), worstK)})
